@@ -1437,7 +1437,7 @@ func legE2E(sum *lib.Summary, rng *lib.Rng, distinct map[string]bool) []string {
 	}
 	n := 70
 	if *tier == "thorough" {
-		n = 2500
+		n = 1800
 	}
 	for _, s := range handScenarios() {
 		runScenario(sum, cw, distinct, s)
